@@ -357,6 +357,17 @@ func (x *Exec) storeElem(st *State, base Val, idx, v *Term) {
 // struct or pointer-to-struct type.
 func (x *Exec) assignField(baseExpr ast.Expr, path []int, v Val, st *State, n ast.Node) {
 	base := x.expr(baseExpr, st)
+	if base.Ty.K == TPtr && base.T.Op == "elemaddr" {
+		// store through an interior pointer: update the slice element
+		hn, h := x.elemHeapOf(st, base.Ty.Elem)
+		reg, at := base.T.Args[0], base.T.Args[1]
+		old := Val{T: Select(st.sel(h, reg), at), Ty: base.Ty.Elem}
+		nv := x.updatePath(st, old, path, v, n)
+		_, h = x.elemHeapOf(st, base.Ty.Elem)
+		x.recordWrite(st, hn, reg, nil, nil, nil, n)
+		st.heaps[hn] = Store(h, reg, Store(st.sel(h, reg), at, nv))
+		return
+	}
 	if base.Ty.K == TPtr {
 		x.safe(st, "nil", Not(Eq(base.T, IntLit(0))), n)
 		hn, h := x.ptrHeapOf(st, base.Ty.Elem)
@@ -594,7 +605,16 @@ func (x *Exec) assignedIn(nodes ...ast.Node) map[types.Object]bool {
 			case *ast.CallExpr:
 				if id, ok := s.Fun.(*ast.Ident); ok {
 					if o := info.ObjectOf(id); o != nil && !visiting[o] {
-						if lit := x.closureLitOf(o); lit != nil {
+						if x.selfVar != nil && o == types.Object(x.selfVar) && len(x.frames) == 1 {
+							// recursive call of the literal being verified
+							visiting[o] = true
+							for k, v := range x.assignedIn(x.fi.Decl.Body) {
+								if v || !out[k] {
+									out[k] = v || out[k]
+								}
+							}
+							delete(visiting, o)
+						} else if lit := x.closureLitOf(o); lit != nil {
 							visiting[o] = true
 							for k, v := range x.assignedIn(lit.Body) {
 								if v || !out[k] {
@@ -778,6 +798,7 @@ func (x *Exec) forStmt(s *ast.ForStmt, st *State, label string) outcome {
 		exits = exits[1:]
 	}
 	out.normal = x.mergeAll(exits)
+	x.exitAsserts(ord, out.normal, s.End())
 	return out
 }
 
@@ -986,5 +1007,35 @@ func (x *Exec) rangeStmt(s *ast.RangeStmt, st *State, label string) outcome {
 	if out.normal != nil {
 		delete(out.normal.vars, idxObj)
 	}
+	x.exitAsserts(ord, out.normal, s.End())
 	return out
+}
+
+// exitAsserts: contract assertions anchored at the exit of loop ord
+// (`assert @loopN:exit [label] e`). A label starting with "assumed" makes
+// it an assumption instead, which is recorded as such.
+func (x *Exec) exitAsserts(ord int, st *State, pos token.Pos) {
+	fr := x.cur()
+	if st == nil || fr.fc == nil {
+		return
+	}
+	anchor := fmt.Sprintf("loop%d:exit", ord)
+	for i, a := range fr.fc.Asserts {
+		if a.Anchor != anchor {
+			continue
+		}
+		env := x.invEnv(st, pos, nil)
+		label := a.Cl.Label
+		if label == "" {
+			label = fmt.Sprintf("a%d", i+1)
+		}
+		t := env.evalBool(a.Cl.E)
+		if a.Cl.Assumed {
+			x.noteTrusted(fmt.Sprintf("ASSUMED inside %s at the exit of loop %d, without proof: [%s] %s", fr.key, ord, label, a.Cl.Src))
+			st.assume(t)
+			continue
+		}
+		x.oblige(st, "assert", fmt.Sprintf("%s@%s", label, anchor), t, pos, a.Cl.Src)
+		st.assume(t)
+	}
 }
